@@ -235,7 +235,10 @@ def _render(v, style):
 
 @st.composite
 def num_text(draw, negative=None):
-    cls = draw(st.sampled_from(['zero', 'small', 'huge', 'prob', 'thr', 'thr', 'int', 'neg', 'float']))
+    cls = draw(st.sampled_from(['zero', 'small', 'huge', 'prob', 'thr', 'thr', 'int', 'neg', 'float'] * 3 + ['overflow']))
+    if cls == 'overflow' and negative is not True:
+        # numerals beyond the double range (and the literal infinities): float() parses them to +-inf
+        return draw(st.sampled_from(['1e400', '-1e999', 'inf', '-inf', '1e309']))
     if negative is True:
         cls = draw(st.sampled_from(['neg', 'neg', 'negsmall', 'neghuge']))
     if cls == 'zero':
@@ -481,6 +484,24 @@ def oracle(case, rec, preset_clause=False):
             if list(out2.columns) != list(out.columns) or not out2.astype(str).equals(out.astype(str)):
                 raise Violation(f'second construct_new_features call on the same transformer object gives a different frame: '
                                 f'{len(out.columns)} vs {len(out2.columns)} columns', kind='C12/instance-reuse')
+
+        if case.get('reuse', True) and n <= 400:
+            # ... and a transformer object that saw ANOTHER mini-batch of the same columns first (all cells negative: roots and logs
+            # are degenerate there): what is emitted for this batch depends on this batch alone
+            tr3 = FeatureTransformerGeneric({c['name'] for c in cols}, preset=','.join(presets))
+            earlier = df.copy()
+            for c in cols:
+                earlier[c['name']] = ['-5', '-7'] * (n // 2) + ['-5'] * (n % 2)
+            try:
+                tr3.construct_new_features(earlier)
+                out3 = tr3.construct_new_features(df.copy())
+            except Exception as e:  # noqa: BLE001
+                raise Violation(f'construct_new_features after an earlier batch on the same transformer object raised {type(e).__name__}: {e}',
+                                kind='C12/instance-reuse')
+            if list(out3.columns) != list(out.columns) or not out3.astype(str).equals(out.astype(str)):
+                missing = [c for c in out.columns if c not in out3.columns]
+                raise Violation(f'after an earlier batch (negative cells) on the same transformer object this batch gives '
+                                f'{len(out3.columns)} columns, a fresh object {len(out.columns)}; missing {missing[:4]}', kind='C12/instance-reuse')
 
     union = set(expected_names)
     last = set(VAULT[presets[-1]])
